@@ -474,15 +474,20 @@ def run_check(mod, tier, verif_seed, workers=None, budget_scale=None):
         print('HARNESS-ERROR (%d):' % len(harness_errors))
         for h in harness_errors[:3]:
             print(h)
-        # a violation that was found, minimised and written stands on its own replay file
-        return 1 if n_viol else 2
     if nondet:
         r = nondet[0]
-        print('HARNESS-NONDETERMINISM run %s/%d seed=%d digests=%s' % (
-            r['kind'], r['index'], r['seed'], r['nondet']))
-        return 3
+        print('HARNESS-NONDETERMINISM run %s/%d seed=%d digests=%s%s' % (
+            r['kind'], r['index'], r['seed'], r['nondet'],
+            ' (with violations present this is usually the system under test itself, e.g. '
+            'un-initialised result rows steering later rounds)' if n_viol else ''))
+    # a violation that was found, minimised and written stands on its own replay file and takes
+    # precedence; without one, a harness error or nondeterminism means no claim is made
     if n_viol:
         return 1
+    if harness_errors:
+        return 2
+    if nondet:
+        return 3
     zero = [p for p in getattr(mod, 'EXPECTED_PROBES', {}).get(tier, []) if not probes.get(p)
             and not stats.get(p)]
     if zero:
